@@ -365,7 +365,7 @@ Fixpoint run_ops (fuel : nat) (st : rst) (ts : list str) (acc : list str) : list
             end
           else if chr 90 op then (* Z : process restart without power loss *)
             run_ops fuel' {| r_cfg := r_cfg st; r_wal := None;
-                             r_env := {| e_acts := e_acts (r_env st); e_disk := e_disk (r_env st);
+                             r_env := {| e_acts := e_acts (r_env st); e_disk := adopt_disk (e_disk (r_env st));
                                          e_fault := e_fault (r_env st); e_m := zero_metrics |};
                              r_mark := r_mark st; r_base := r_base st; r_base_n := r_base_n st |} r acc
           else if chr 78 op then (* N : number of I/O actions so far *)
